@@ -575,3 +575,296 @@ Proof.
   split; [vm_compute; auto|]. constructor; [constructor|]. constructor; [|constructor].
   constructor. intros id t. destruct (N.leb_spec 2 t), (N.ltb_spec t 2); try reflexivity; lia.
 Qed.
+
+(* ======================================================================
+   The step  packet -> (stream id, offset, more-fragments flag, payload, protocol)
+   (third part; model and wire specification: Defrag/PacketStep.v, lemmas:
+   Defrag/PacketStepProofs.v).
+
+   Model : `frag_key_of p chan` = the `match &slice.net { .. }` at the start of
+           `IpDefragPool::process_sliced_packet` over the model of `SlicedPacket` and the accessor
+           models of Parse/Access.v (Ipv4HeaderSlice::{is_fragmenting_payload, source, destination,
+           identification, fragments_offset, more_fragments}, the Ipv6ExtensionSliceIter loop that
+           looks for the first fragment header, Ipv6FragmentHeaderSlice::{is_fragmenting_payload,
+           to_header}, Ipv6HeaderSlice::{source, destination}, SlicedPacket::vlan_ids with
+           SingleVlanSlice::vlan_identifier, payload().ip_number); `frag_id` = `IpFragId` with
+           `IpFragVersionSpecId` (derived Eq = structural equality); `encode_id` embeds it into the
+           abstract ids `fid` of the pool model; `process_sliced_packet` = extraction, then
+           `Model.process`; `pk_trace` = a history of received FRAMES (bytes), each sliced with one
+           of the four entry points of SlicedPacket (a frame the slicer rejects never reaches the pool).
+   Spec  : `wire_key bs v chan` = the same data read off the wire: the layers / windows of the
+           reference decoder (Parse/WireSpec.v) and the RFC fields at their ABSOLUTE positions
+           (Parse/Fields.v): IPv4 source = octets 12..16, destination = octets 16..20,
+           identification = octets 4..6, MF = bit 2 and fragment offset = bits 3..16 of octets 6..8
+           of the IPv4 header; IPv6 source = octets 8..24, destination = octets 24..40 of the IPv6
+           header; the fragment header = the first header with number 44 found by walking the RFC 8200
+           chain from the IPv6 header's next-header octet (`frag_pos`), its identification = octets
+           4..8, fragment offset = first 13 bits and M = last bit of octets 2..4; VLAN ids = the 12
+           VID bits of the TCI of every 802.1Q tag, outermost first; payload protocol number and
+           payload window = those of the reference decoder's IP payload.
+   ====================================================================== *)
+From EP Require Import Parse.Types Parse.Slices Parse.Cursor Parse.View Parse.WireSpec
+  Parse.Access Parse.Fields.
+From EP Require Import Defrag.PacketStep Defrag.PacketStepProofs.
+
+(* (a) the structured id: two ids are the same stream of the pool model exactly when they agree on
+   ALL of: VLAN ids (all of them, in order), IP version, source, destination, identification,
+   payload protocol number, channel *)
+Theorem C11_id_injective : forall a b,
+  encode_id a = encode_id b <->
+  fi_vlans a = fi_vlans b /\
+  id_is_v4 (fi_ip a) = id_is_v4 (fi_ip b) /\
+  id_src (fi_ip a) = id_src (fi_ip b) /\
+  id_dst (fi_ip a) = id_dst (fi_ip b) /\
+  id_ident (fi_ip a) = id_ident (fi_ip b) /\
+  fi_ipn a = fi_ipn b /\
+  fi_chan a = fi_chan b.
+Proof. exact same_stream_iff. Qed.
+Print Assumptions C11_id_injective.
+
+(* (a)+(c) every frame, every entry point: the slicing model never reaches Bug; when the slicer
+   accepts, the reference decoder accepts with the same layers, `frag_key_of` never reaches Bug
+   (no out-of-range read, no push on a full ArrayVec, no fuel exhaustion) and its result -- id,
+   offset, flag, payload window, version -- IS the wire key; the bytes handed to IpDefragBuf::add are
+   the octets of the payload window; when the slicer rejects, the frame is no fragment by the wire
+   formats either *)
+Theorem C11_packet_key : forall e bs chan, bytes_ok bs ->
+  match slice_with e bs with
+  | Ok p =>
+      wire_with e bs = VOk (View.view p) /\
+      exists ok, frag_key_of p chan = Ok ok /\
+        option_map key_view ok = wire_frag_of e bs chan /\
+        forall k, ok = Some k ->
+          k_frag (pkt_of_key k) = frag_of_wire bs (key_view k) /\
+          k_ipn (pkt_of_key k) = fi_ipn (fk_id k) /\
+          k_v4 (pkt_of_key k) = id_is_v4 (fi_ip (fk_id k)) /\
+          is_fragmenting (k_frag (pkt_of_key k)) = true
+  | Err _ => wire_frag_of e bs chan = None
+  | Bug _ => False
+  end.
+Proof. exact packet_key. Qed.
+Print Assumptions C11_packet_key.
+
+(* (a) on the wire, IPv4: two fragments belong to the same stream exactly when they agree on the VID
+   bits of all their VLAN tags, octets 12..16, 16..20 and 4..6 of the IPv4 header, the payload
+   protocol number and the channel -- TTL, DSCP/ECN, checksum, options, MAC addresses, PCP/DEI,
+   total length, offset and flags do not enter *)
+Theorem C11_same_stream_v4_wire : forall bs1 bs2 v1 v2 c1 c2 h1 a1 pl1 h2 a2 pl2 w1 w2,
+  v_net v1 = Some (VIpv4 h1 a1 pl1) -> v_net v2 = Some (VIpv4 h2 a2 pl2) ->
+  wire_key bs1 v1 c1 = Some w1 -> wire_key bs2 v2 c2 = Some w2 ->
+  (encode_id (wf_id w1) = encode_id (wf_id w2) <->
+   wire_vids bs1 (v_exts v1) = wire_vids bs2 (v_exts v2) /\
+   bytes_at bs1 (fst h1 + 12) 4 = bytes_at bs2 (fst h2 + 12) 4 /\
+   bytes_at bs1 (fst h1 + 16) 4 = bytes_at bs2 (fst h2 + 16) 4 /\
+   W bs1 (fst h1 + 4) = W bs2 (fst h2 + 4) /\
+   vip_number pl1 = vip_number pl2 /\
+   c1 = c2).
+Proof. exact same_stream_v4_wire. Qed.
+Print Assumptions C11_same_stream_v4_wire.
+
+(* IPv6: octets 8..24 and 24..40 of the IPv6 header, octets 4..8 of the first fragment header of the
+   chain (at q1 / q2) -- traffic class, flow label, hop limit and the other extension headers do
+   not enter *)
+Theorem C11_same_stream_v6_wire : forall bs1 bs2 v1 v2 c1 c2 h1 f1 g1 x1 pl1 h2 f2 g2 x2 pl2 q1 q2 w1 w2,
+  v_net v1 = Some (VIpv6 h1 f1 g1 x1 pl1) -> v_net v2 = Some (VIpv6 h2 f2 g2 x2 pl2) ->
+  frag_pos bs1 (S (N.to_nat (snd x1))) (B bs1 (fst h1 + 6)) (fst x1) (fst x1 + snd x1) = Some q1 ->
+  frag_pos bs2 (S (N.to_nat (snd x2))) (B bs2 (fst h2 + 6)) (fst x2) (fst x2 + snd x2) = Some q2 ->
+  wire_key bs1 v1 c1 = Some w1 -> wire_key bs2 v2 c2 = Some w2 ->
+  (encode_id (wf_id w1) = encode_id (wf_id w2) <->
+   wire_vids bs1 (v_exts v1) = wire_vids bs2 (v_exts v2) /\
+   bytes_at bs1 (fst h1 + 8) 16 = bytes_at bs2 (fst h2 + 8) 16 /\
+   bytes_at bs1 (fst h1 + 24) 16 = bytes_at bs2 (fst h2 + 24) 16 /\
+   num_at bs1 (q1 + 4) 4 = num_at bs2 (q2 + 4) 4 /\
+   vip_number pl1 = vip_number pl2 /\
+   c1 = c2).
+Proof. exact same_stream_v6_wire. Qed.
+Print Assumptions C11_same_stream_v6_wire.
+
+(* an IPv4 and an IPv6 fragment never share a stream, whatever their addresses / identification *)
+Theorem C11_diff_version_wire : forall bs1 bs2 v1 v2 c1 c2 h1 a1 pl1 h2 f2 g2 x2 pl2 w1 w2,
+  v_net v1 = Some (VIpv4 h1 a1 pl1) -> v_net v2 = Some (VIpv6 h2 f2 g2 x2 pl2) ->
+  wire_key bs1 v1 c1 = Some w1 -> wire_key bs2 v2 c2 = Some w2 ->
+  encode_id (wf_id w1) <> encode_id (wf_id w2).
+Proof. exact diff_version_wire. Qed.
+Print Assumptions C11_diff_version_wire.
+
+(* the two together: for two frames the slicer accepts and the crate treats as fragments, the pool
+   uses the same stream id exactly when their wire ids are equal *)
+Theorem C11_packets_same_stream : forall e1 bs1 c1 p1 k1 e2 bs2 c2 p2 k2,
+  bytes_ok bs1 -> bytes_ok bs2 ->
+  slice_with e1 bs1 = Ok p1 -> slice_with e2 bs2 = Ok p2 ->
+  frag_key_of p1 c1 = Ok (Some k1) -> frag_key_of p2 c2 = Ok (Some k2) ->
+  exists w1 w2,
+    wire_key bs1 (View.view p1) c1 = Some w1 /\ wire_key bs2 (View.view p2) c2 = Some w2 /\
+    wire_with e1 bs1 = VOk (View.view p1) /\ wire_with e2 bs2 = VOk (View.view p2) /\
+    (k_id (pkt_of_key k1) = k_id (pkt_of_key k2) <-> wf_id w1 = wf_id w2).
+Proof. exact packets_same_stream. Qed.
+Print Assumptions C11_packets_same_stream.
+
+(* (b) pass-through: `frag_key_of` answers `None` exactly when the packet is not a fragment on the
+   wire (IPv4: MF = 0 and offset = 0; IPv6: no fragment header in the chain, or M = 0 and offset = 0
+   in the first one; ARP / no network layer), and then process_sliced_packet returns
+   (nothing, pool unchanged) *)
+Theorem C11_packet_passthrough : forall e bs p chan, bytes_ok bs -> slice_with e bs = Ok p ->
+  (frag_key_of p chan = Ok None <-> wire_unfragmented bs (View.view p)) /\
+  (wire_unfragmented bs (View.view p) ->
+   forall pl ts, process_sliced_packet pl p ts chan = Ok (PNone, pl)).
+Proof. exact packet_passthrough. Qed.
+Print Assumptions C11_packet_passthrough.
+
+(* (c) a fragment: process_sliced_packet = the pool model of Defrag/Model.v run on the WIRE fields:
+   stream id, offset (f_off = offset field * 8), M flag, the octets of the IP payload window, the
+   payload protocol number *)
+Theorem C11_packet_fragment : forall e bs p chan w, bytes_ok bs -> slice_with e bs = Ok p ->
+  wire_key bs (View.view p) chan = Some w ->
+  forall pl ts,
+    process_sliced_packet pl p ts chan =
+      Ok (process pl (mkPkt (encode_id (wf_id w)) (id_is_v4 (fi_ip (wf_id w))) (fi_ipn (wf_id w))
+                        (frag_of_wire bs w)) ts) /\
+    is_fragmenting (frag_of_wire bs w) = true.
+Proof. exact packet_fragment. Qed.
+Print Assumptions C11_packet_fragment.
+
+(* (d) isolation over FRAME histories: whatever frames arrive in whatever order on whatever channel
+   (fragments of other datagrams, unfragmented packets, frames the slicer rejects, buffer returns),
+   the answers to the frames whose wire id is i are the answers its own fragments get alone *)
+Theorem C11_packets_isolation : forall pl i ops, Forall op_bytes_ok ops ->
+  exists tr, pk_trace pl ops = Ok tr /\
+    answers_for (encode_id i) tr =
+      stream_trace (Defrag.Proofs.view (encode_id i) pl) (map (pkt_for i) (wire_for i ops)).
+Proof. exact packets_isolation. Qed.
+Print Assumptions C11_packets_isolation.
+
+(* ... hence: the frames with wire id i are fragments of P; nothing is returned while they do not
+   cover P, and the frame that completes the cover is answered with P (protocol number and length
+   source of i), exactly once -- inside any interleaving with frames of datagrams that differ from i
+   in at least one key field (C11_id_injective / C11_same_stream_v4_wire / _v6_wire) *)
+Theorem C11_packets_complete : forall P i ops pl ks f ts,
+  len P <= 65535 -> Forall op_bytes_ok ops ->
+  Defrag.Proofs.view (encode_id i) pl = None ->
+  wire_for i ops = ks ++ [(f, ts)] ->
+  (forall g, In g (map fst ks) -> frag_of P g) -> frag_of P f ->
+  (forall j, (j <= length ks)%nat -> ~ Covered P (firstn j (map fst ks))) ->
+  Covered P (map fst ks ++ [f]) ->
+  exists tr, pk_trace pl ops = Ok tr /\
+    answers_for (encode_id i) tr =
+      map (fun _ => PNone) ks ++ [PDone (fi_ipn i) (id_is_v4 (fi_ip i)) (map Some P)].
+Proof. exact packets_complete. Qed.
+Print Assumptions C11_packets_complete.
+
+(* ---- non-vacuity ---- *)
+Definition pk_eth (et : N) : bytes := [7;8;9;10;11;12; 1;2;3;4;5;6; et / 256; et mod 256].
+Definition pk_vlan (tci et : N) : bytes := [tci / 256; tci mod 256; et / 256; et mod 256].
+(* IPv4, 20 octets: DSCP/ECN octet, identification, flags+offset, TTL, protocol 17, 10.0.0.1 -> dst *)
+Definition pk_v4 (tos ident flags_fo ttl : N) (dst : bytes) (payload : bytes) : bytes :=
+  [69; tos; 0; 20 + len payload; ident / 256; ident mod 256; flags_fo / 256; flags_fo mod 256;
+   ttl; 17; 0; 0; 10; 0; 0; 1] ++ dst ++ payload.
+(* IPv6 + hop-by-hop (8 octets) + fragment header; hd4 = octets 0..4 (version, traffic class, flow label) *)
+Definition pk_v6 (hd4 : bytes) (hop : N) (fo_m ident : N) (payload : bytes) : bytes :=
+  hd4 ++ [0; 16 + len payload; 0; hop] ++
+  [32;1;13;184;0;0;0;0;0;0;0;0;0;0;0;1] ++ [32;1;13;184;0;0;0;0;0;0;0;0;0;0;0;2] ++
+  [44; 0; 1; 4; 0; 0; 0; 0] ++
+  [17; 0; fo_m / 256; fo_m mod 256; 0; 0; ident / 256; ident mod 256] ++ payload.
+
+(* VLAN 5 (PCP 3, DEI 1 set: TCI 0x7005) / IPv4 id 7, MF, offset 0, 8 octets *)
+Definition exA1 : bytes := pk_eth 33024 ++ pk_vlan 28677 2048 ++ pk_v4 0 7 8192 64 [10;0;0;2] [1;2;3;4;5;6;7;8].
+(* the rest of the same datagram with another TTL, DSCP, PCP: offset 1, last *)
+Definition exA2 : bytes := pk_eth 33024 ++ pk_vlan 5 2048 ++ pk_v4 184 7 1 3 [10;0;0;2] [9;10;11].
+(* differs from A in ONE bit of the destination *)
+Definition exB1 : bytes := pk_eth 33024 ++ pk_vlan 5 2048 ++ pk_v4 0 7 8192 64 [10;0;0;3] [21;22;23;24;25;26;27;28].
+Definition exB2 : bytes := pk_eth 33024 ++ pk_vlan 5 2048 ++ pk_v4 0 7 1 64 [10;0;0;3] [29].
+(* not a fragment *)
+Definition exU : bytes := pk_eth 2048 ++ pk_v4 0 7 0 64 [10;0;0;2] [0;53;0;53;0;12;0;0;1;2;3;4].
+(* IPv6: hop-by-hop in front of the fragment header, identification 7, offset 1, last; traffic class / flow label set *)
+Definition exV6 : bytes := pk_eth 34525 ++ pk_v6 [106;188;222;241] 9 8 7 [1;2;3].
+
+Definition exIdA : frag_id := mkFragId [5] (IdV4 [10;0;0;1] [10;0;0;2] 7) 17 3.
+Definition exIdB : frag_id := mkFragId [5] (IdV4 [10;0;0;1] [10;0;0;3] 7) 17 3.
+
+Example C11_ex_key_v4 :
+  bytes_ok exA1 /\
+  exists p, SlicedPacket.from_ethernet exA1 = Ok p /\
+    frag_key_of p 3 =
+      Ok (Some (mkFragKey exIdA 0 true
+                  (mkIpPayload 17 true LsIpv4HeaderTotalLen (38, [1;2;3;4;5;6;7;8])) true)) /\
+    wire_frag_of EEthernet exA1 3 = Some (mkWireFrag exIdA 0 true (38, 8) true).
+Proof.
+  split; [apply bytes_okb_spec; vm_compute; reflexivity|].
+  eexists. split; [vm_compute; reflexivity|]. split; vm_compute; reflexivity.
+Qed.
+
+(* the key of an IPv6 fragment: found behind the hop-by-hop header; the flow label is not in it *)
+Example C11_ex_key_v6 :
+  bytes_ok exV6 /\
+  exists p, SlicedPacket.from_ethernet exV6 = Ok p /\
+    option_map key_view match frag_key_of p 0 with Ok o => o | _ => None end =
+      Some (mkWireFrag (mkFragId [] (IdV6 [32;1;13;184;0;0;0;0;0;0;0;0;0;0;0;1]
+                                          [32;1;13;184;0;0;0;0;0;0;0;0;0;0;0;2] 7) 17 0)
+              1 false (70, 3) false) /\
+    wire_frag_of EEthernet exV6 0 = option_map key_view match frag_key_of p 0 with Ok o => o | _ => None end.
+Proof.
+  split; [apply bytes_okb_spec; vm_compute; reflexivity|].
+  eexists. split; [vm_compute; reflexivity|]. split; vm_compute; reflexivity.
+Qed.
+
+(* same stream although TTL, DSCP and PCP/DEI differ; another stream when one destination bit,
+   the channel or the IP version differs (IPv6 with the numerically same identification) *)
+Example C11_ex_same_diff :
+  option_map wf_id (wire_frag_of EEthernet exA1 3) = Some exIdA /\
+  option_map wf_id (wire_frag_of EEthernet exA2 3) = Some exIdA /\
+  option_map wf_id (wire_frag_of EEthernet exB1 3) = Some exIdB /\
+  encode_id exIdA <> encode_id exIdB /\
+  option_map wf_id (wire_frag_of EEthernet exA1 4) <> Some exIdA /\
+  wire_frag_of EEthernet exU 3 = None /\
+  (exists p, SlicedPacket.from_ethernet exU = Ok p /\ wire_unfragmented exU (View.view p)).
+Proof.
+  split; [vm_compute; reflexivity|]. split; [vm_compute; reflexivity|]. split; [vm_compute; reflexivity|].
+  split; [vm_compute; discriminate|]. split; [vm_compute; discriminate|]. split; [vm_compute; reflexivity|].
+  eexists. split; [vm_compute; reflexivity|]. vm_compute. split; reflexivity.
+Qed.
+
+(* two datagrams whose ids differ in one destination bit, an unfragmented packet, an IPv6 fragment and a
+   buffer return, interleaved: the frame history through slicing, key extraction and the pool model *)
+Definition exOps : list pk_op :=
+  [KPacket EEthernet exA1 1 3; KPacket EEthernet exB2 2 3; KPacket EEthernet exU 3 3;
+   KPacket EEthernet exV6 4 3; KPacket EEthernet exB1 5 3; KReturn [Some 1];
+   KPacket EEthernet [1;2;3] 6 3; KPacket EEthernet exA2 7 3].
+
+Example C11_ex_packets :
+  pk_trace pool_new exOps =
+    Ok [(Some (encode_id exIdA), PNone); (Some (encode_id exIdB), PNone); (None, PNone);
+        (Some (encode_id (mkFragId [] (IdV6 [32;1;13;184;0;0;0;0;0;0;0;0;0;0;0;1]
+                                            [32;1;13;184;0;0;0;0;0;0;0;0;0;0;0;2] 7) 17 3)), PNone);
+        (Some (encode_id exIdB), PDone 17 true (map Some [21;22;23;24;25;26;27;28;29]));
+        (None, PNone); (None, PNone);
+        (Some (encode_id exIdA), PDone 17 true (map Some [1;2;3;4;5;6;7;8;9;10;11]))].
+Proof. vm_compute. reflexivity. Qed.
+
+(* the hypotheses of C11_packets_complete hold for datagram A inside that history *)
+Example C11_ex_packets_hyp :
+  let P := [1;2;3;4;5;6;7;8;9;10;11] in
+  let f1 := mkFrag 0 true [1;2;3;4;5;6;7;8] in let f2 := mkFrag 1 false [9;10;11] in
+  len P <= 65535 /\ Forall op_bytes_ok exOps /\ Defrag.Proofs.view (encode_id exIdA) pool_new = None /\
+  wire_for exIdA exOps = [(f1, 1)] ++ [(f2, 7)] /\
+  (forall g, In g (map fst [(f1, 1)]) -> frag_of P g) /\ frag_of P f2 /\
+  (forall j, (j <= length [(f1, 1)])%nat -> ~ Covered P (firstn j (map fst [(f1, 1)]))) /\
+  Covered P (map fst [(f1, 1)] ++ [f2]).
+Proof.
+  cbv zeta. split; [vm_compute; discriminate|]. split.
+  { repeat constructor; apply bytes_okb_spec; vm_compute; reflexivity. }
+  split; [reflexivity|]. split; [vm_compute; reflexivity|]. split.
+  { intros g [<-|[]]. vm_compute. repeat split; try reflexivity; try discriminate. }
+  split; [vm_compute; repeat split; try reflexivity; discriminate|]. split.
+  { intros j Hj ((g & Hg & Hm) & _). destruct j as [|[|j]]; cbn in Hg, Hj.
+    - destruct Hg.
+    - destruct Hg as [<-|[]]. discriminate.
+    - lia. }
+  split.
+  - eexists. split; [right; left; reflexivity|reflexivity].
+  - intros i Hi. change (len [1; 2; 3; 4; 5; 6; 7; 8; 9; 10; 11]) with 11 in Hi.
+    destruct (N.ltb_spec i 8).
+    + eexists. split; [left; reflexivity|]. vm_compute. split; [destruct i; discriminate|].
+      change (N.compare i 8 = Lt). apply N.compare_lt_iff. exact H.
+    + eexists. split; [right; left; reflexivity|]. unfold f_off, f_endp, f_off. cbn [f_fo f_data].
+      change (len [9; 10; 11]) with 3. lia.
+Qed.
